@@ -178,8 +178,8 @@ Qed.
 (* ------------------------------------------------------------------ the invariant *)
 Definition tmp_expect (g : grower) : option content :=
   match g_pc g with
-  | 1 | 2 => Some Torn
-  | 3 | 4 => Some (Whole (g_batch g))
+  | 1 | 2 | 3 => Some Torn
+  | 4 => Some (Whole (g_batch g))
   | _ => None
   end.
 
@@ -311,9 +311,15 @@ Proof.
     + intros c H. left. now rewrite fs_get_set_other in H.
     + now rewrite fs_get_set_other.
     + now rewrite fs_get_set_other.
-  - (* close *)
-    constructor; cbn; try reflexivity; try tauto.
-    + unfold grower_ok, tmp_expect. cbn. repeat split; try lia. exact Htmp.
+  - (* close: the buffered rest reaches the file *)
+    constructor; cbn; try reflexivity.
+    + now apply keys_set.
+    + unfold grower_ok, tmp_expect. cbn. repeat split; try lia. apply fs_get_set_same.
+    + intros n H1 H2. now apply fs_get_set_other.
+    + intros _ n H1. now apply fs_get_set_other.
+    + intros c H. left. now rewrite fs_get_set_other in H.
+    + now rewrite fs_get_set_other.
+    + now rewrite fs_get_set_other.
   - (* rename *)
     rewrite Htmp. cbn [fst snd g_batch g_uid g_pc g_err].
     constructor; cbn; try reflexivity.
